@@ -132,7 +132,7 @@ fn config_case<P: G>(n: usize, c: usize, d: usize, probe_all: bool) -> Box<dyn C
     })
 }
 
-/// (4') the public iterators under every mixture of next() and nth(k), skip / step_by / count / last (5 small parameter sets), (5) construction histories: building other parameter objects first never changes what a construction returns
+/// (4'') clone_from between parameter objects of equal and different shapes (generators and table of the result), (4') the public iterators under every mixture of next() and nth(k), skip / step_by / count / last (5 small parameter sets), (5) construction histories: building other parameter objects first never changes what a construction returns
 fn history_case<P: G>(hist: Vec<(usize, usize)>) -> Box<dyn Case> {
     let name: Vec<String> = hist.iter().map(|(n, c)| format!("({},{})", n, c)).collect();
     case(format!("{}/history/{}", P::NAME, name.join("")), move |_v| {
@@ -212,6 +212,52 @@ fn after_use_case<P: G>(n: usize, c: usize, read_first: bool) -> Box<dyn Case> {
     })
 }
 
+/// `a.clone_from(&b)`: afterwards `a` is `b` -- its generators AND the precomputed table that represents them (a table is
+/// probed one unit vector at a time against the interleaved order of the generators the object hands out)
+fn clone_from_case<P: G>(from: (usize, usize), onto: (usize, usize)) -> Box<dyn Case> {
+    case(format!("{}/clone-from/({},{})-onto-({},{})", P::NAME, from.0, from.1, onto.0, onto.1), move |_v| {
+        fg::clear_intern();
+        let mut res = CaseResult::new("explored");
+        let src = P::params(from.0, from.1, P::pc_gens(1)).honest();
+        let mut dst = P::params(onto.0, onto.1, P::pc_gens(2)).honest();
+        if catch(std::panic::AssertUnwindSafe(|| dst.clone_from(&src))).is_err() {
+            res.violate("clone_from", "clone_from panicked");
+            return res;
+        }
+        res.executions += 1;
+        let (n, c) = from;
+        let (rg, rh) = refbp::ref_gens::<P>(n, c);
+        let (g, h) = (P::gi_vec(&dst), P::hi_vec(&dst));
+        res.validated += 1;
+        if g != rg || h != rh || dst.bit_length() != n || dst.max_aggregation_factor() != c || dst.extension_degree() as usize != 1 {
+            res.violate("generators", "after clone_from the object does not hand out the source's generators / shape");
+            return res;
+        }
+        // table: position 2i is G_i, position 2i+1 is H_i
+        let len = 2 * n * c;
+        for pos in 0..len {
+            res.transitions += 1;
+            let mut scalars = vec![Scalar::ZERO; len];
+            scalars[pos] = Scalar::ONE;
+            let want = if pos % 2 == 0 { &g[pos / 2] } else { &h[pos / 2] };
+            match catch(|| P::precomp_static(&dst, &scalars)) {
+                Ok(got) => {
+                    res.validated += 1;
+                    if got != *want {
+                        res.violate(format!("table[{}]", pos), format!("after clone_from, entry {} of the precomputed table is not the generator the object hands out at that place", pos));
+                        break;
+                    }
+                },
+                Err(p) => {
+                    res.violate(format!("table[{}]", pos), format!("after clone_from, the table probe panicked: {}", p));
+                    break;
+                },
+            }
+        }
+        res
+    })
+}
+
 /// The public generator iterators honour the Iterator protocol: whatever mixture of next() and nth(k) is used, and through
 /// skip / step_by / count / last, position p of the iteration is generator p of the collected vector (which `config_case`
 /// compares with the derivation)
@@ -268,7 +314,7 @@ pub fn run(rep: &mut Report) {
     rep.rule = "every (bits, capacity) in {1,2,4,8,16,32,64} x {1,2,4,8,16,32} x extension degree 1..6 (quick: all degrees at capacity 1, {1,6} up to 8, 1 above), fresh construction: (1) the \
                 1+d+2*n*c points are pairwise distinct and none is the identity, (2) each equals the independent SHAKE256 / SHA3-512 \
                 derivation, (3) compressed accessors are the encodings of the same points, (4) the precomputed table is interrogated one \
-                unit vector at a time against the interleaved order, (4') the public iterators under every mixture of next() and nth(k), skip / step_by / count / last (5 small parameter sets), (5) construction histories of length <= 3 over the (n,c) alphabet, and use histories (prove + verify aggregates of every size, up and down) \
+                unit vector at a time against the interleaved order, (4'') clone_from between parameter objects of equal and different shapes (generators and table of the result), (4') the public iterators under every mixture of next() and nth(k), skip / step_by / count / last (5 small parameter sets), (5) construction histories of length <= 3 over the (n,c) alphabet, and use histories (prove + verify aggregates of every size, up and down) \
                 after which the object and its clones must still hand out the same generators; \
                 schedules: first-use race of the two cached generator arrays, every interleaving with <= 2 (thorough 3) preemptions, one \
                 fresh process per schedule"
@@ -311,6 +357,10 @@ pub fn run(rep: &mut Report) {
             cases.push(after_use_case::<RistrettoPoint>(n, c, read_first));
             cases.push(after_use_case::<F>(n, c, read_first));
         }
+    }
+    for (from, onto) in [((2usize, 2usize), (2usize, 2usize)), ((4, 2), (2, 4)), ((2, 4), (8, 1)), ((8, 1), (2, 2)), ((2, 2), (4, 4))] {
+        cases.push(clone_from_case::<RistrettoPoint>(from, onto));
+        cases.push(clone_from_case::<F>(from, onto));
     }
     for (n, c) in [(1usize, 4usize), (2, 2), (4, 2), (2, 8), (8, 2)] {
         cases.push(iterator_protocol_case::<RistrettoPoint>(n, c));
